@@ -121,4 +121,92 @@ theorem view_eq_of_sim {s t : SDB} (h : Sim s t) : view s = view t := by
   simp only [view, hacc, h.refund, h.logs, h.preimages]
 
 
+/-! ### several instances over one database -/
+
+theorem world_step_others (w w' : World) (st : WStep) (j : Nat) (hj : j < w.insts.length) (ha : st.avoids j = true)
+    (h : w.step st = some w') :
+    w'.insts[j]? = w.insts[j]? ∧ ∀ (k : Nat) c, w.committed[k]? = some c → w'.committed[k]? = some c := by
+  cases st with
+  | «at» i op =>
+    have hij : i ≠ j := by simpa [WStep.avoids] using ha
+    simp only [World.step, World.stepAt] at h
+    cases hi : w.insts[i]? with
+    | none => simp [hi] at h
+    | some s =>
+      simp only [hi] at h
+      cases op with
+      | tx o =>
+        cases ho : stepTx o s with
+        | none => simp [ho] at h
+        | some s' =>
+          simp only [ho, Option.map, Option.some.injEq] at h; subst h
+          exact ⟨by simp [List.getElem?_set_ne hij], fun _ _ hc => hc⟩
+      | prepare th =>
+        simp only [Option.some.injEq] at h; subst h
+        exact ⟨by simp [List.getElem?_set_ne hij], fun _ _ hc => hc⟩
+      | finalise d =>
+        simp only [Option.some.injEq] at h; subst h
+        exact ⟨by simp [List.getElem?_set_ne hij], fun _ _ hc => hc⟩
+      | commit d =>
+        simp only [Option.some.injEq] at h; subst h
+        refine ⟨by simp [List.getElem?_set_ne hij], fun k c hc => ?_⟩
+        have hk : k < w.committed.length := by
+          rcases Nat.lt_or_ge k w.committed.length with h' | h'
+          · exact h'
+          · rw [List.getElem?_eq_none h'] at hc; simp at hc
+        simp only
+        rw [List.getElem?_append_left hk]; exact hc
+      | reset k =>
+        cases hk : w.committed[k]? with
+        | none => simp [hk] at h
+        | some c =>
+          simp only [hk, Option.map, Option.some.injEq] at h; subst h
+          exact ⟨by simp [List.getElem?_set_ne hij], fun _ _ hc => hc⟩
+  | openAt k =>
+    simp only [World.step, World.openAt] at h
+    cases hk : w.committed[k]? with
+    | none => simp [hk] at h
+    | some c =>
+      simp only [hk, Option.map, Option.some.injEq] at h; subst h
+      exact ⟨by simp [List.getElem?_append_left hj], fun _ _ hc => hc⟩
+  | copyOf i =>
+    simp only [World.step, World.copyOf] at h
+    cases hi : w.insts[i]? with
+    | none => simp [hi] at h
+    | some s =>
+      simp only [hi, Option.map, Option.some.injEq] at h; subst h
+      exact ⟨by simp [List.getElem?_append_left hj], fun _ _ hc => hc⟩
+
+theorem world_step_length (w w' : World) (st : WStep) (h : w.step st = some w') : w.insts.length ≤ w'.insts.length := by
+  cases st with
+  | «at» i op =>
+    simp only [World.step, World.stepAt] at h
+    cases hi : w.insts[i]? with
+    | none => simp [hi] at h
+    | some s =>
+      simp only [hi] at h
+      cases op with
+      | tx o =>
+        cases ho : stepTx o s with
+        | none => simp [ho] at h
+        | some s' => simp only [ho, Option.map, Option.some.injEq] at h; subst h; simp
+      | prepare th => simp only [Option.some.injEq] at h; subst h; simp
+      | finalise d => simp only [Option.some.injEq] at h; subst h; simp
+      | commit d => simp only [Option.some.injEq] at h; subst h; simp
+      | reset k =>
+        cases hk : w.committed[k]? with
+        | none => simp [hk] at h
+        | some c => simp only [hk, Option.map, Option.some.injEq] at h; subst h; simp
+  | openAt k =>
+    simp only [World.step, World.openAt] at h
+    cases hk : w.committed[k]? with
+    | none => simp [hk] at h
+    | some c => simp only [hk, Option.map, Option.some.injEq] at h; subst h; simp
+  | copyOf i =>
+    simp only [World.step, World.copyOf] at h
+    cases hi : w.insts[i]? with
+    | none => simp [hi] at h
+    | some s => simp only [hi, Option.map, Option.some.injEq] at h; subst h; simp
+
+
 end Aqv.State
